@@ -85,6 +85,11 @@ class Shard:
                 pos = list(range(lim))
             lines = [all_lines[i] for i in pos]
         rc, out, err = run_driver(exe, '\n'.join(lines) + '\n', args=args, timeout=timeout, env=env)
+        if rc == -999:
+            # wall-clock never decides on its own: a timed-out run is repeated once with three times the budget (the machine may just be
+            # loaded); only a second time-out is reported, as a hang of the line in flight
+            self.count('driver_timeouts_retried')
+            rc, out, err = run_driver(exe, '\n'.join(lines) + '\n', args=args, timeout=3 * timeout, env=env)
         ol = out.split('\n')
         if ol and ol[-1] == '':
             ol.pop()
